@@ -15,6 +15,9 @@ NOTES = {
     "C06-H": "thorough tier only: needs one sysex with more than 2^32 data bytes (about 20 s of CPU; C06 'sysex-beyond-2^32-bytes', confirmed against the change)",
     "C19-G": "a package-level scratch buffer shared by the Send of two out-ports of the process-backed driver: outside C19's domain (the line format and its reader); caught by C17 (race detector report and torn lines)",
     "C14-I": "manifests only on streams outside C14's stated domain (running-status data bytes directly behind a sysex: not a legal elision); caught by C06, which quantifies over all byte streams",
+    "C06-N": "thorough tier only: needs one sysex with more than 2^32 data bytes (same group as C06-H, 'sysex-beyond-2^32-bytes')",
+    "C19-M": "needs 100 or more consecutive empty reads of the source (as C19-D): deliberately outside the domain the C19 monitor drives",
+    "C17-N": "the reader of the in-port dies on a line of more than 64 KiB; nothing arrives any more, so the run ends 'inconclusive' (sentinel never observed), never 'held': an asynchronous pipeline gives no proof of loss",
     "C17-F": "detection depends on which helper process dies first: violated (Send fails) in most runs, otherwise inconclusive (probe never observed), never 'held'",
 }
 
@@ -33,7 +36,7 @@ out = ["# Seeded property-breaking changes and the checks that catch them", "",
        "Every change below compiles, passes the 66 pinned tests, comes with a demonstration that fails with it and passes without it",
        "(all confirmed independently by selftest/ingest.sh in a scratch worktree of /repo HEAD), and was then run against the quick checks",
        "(column 'run': ALL = all 20 quick checks, otherwise the listed ones: the target property's check plus the checks that fired in an earlier full run).", "",
-       "Waves: A, B realistic changes; C 'hard'; D-H 'as hard to detect as possible, knowing the defences built so far' (each wave was told the workload dimensions added after the previous ones); I, J and K, L: agents given nothing but the property text and a worktree, two changes each (I/J: two different mechanisms; K: the violation depends on a sequence or on the surroundings, L: it is confined to a narrow region of the input space that is no format boundary). The table shows the state after the workload dimensions that the misses prompted were added; 'first pass' in the summary is what the checks caught when a wave was first ingested.", "",
+       "Waves: A, B realistic changes; C 'hard'; D-H 'as hard to detect as possible, knowing the defences built so far' (each wave was told the workload dimensions added after the previous ones); I, J, K, L and M, N: agents given nothing but the property text and a worktree, two changes each (I/J: two different mechanisms; K: the violation depends on a sequence or on the surroundings, L: it is confined to a narrow region of the input space that is no format boundary; M: the change sits in a lower layer or a neighbour of the code the property names, N: the violation shows only at scale or after accumulation). The table shows the state after the workload dimensions that the misses prompted were added; 'first pass' in the summary is what the checks caught when a wave was first ingested.", "",
        "| change | breaks | run | caught by (quick) | target caught | what it needs to manifest |", "|---|---|---|---|---|---|"]
 missed = []
 per_wave = collections.OrderedDict()
@@ -63,6 +66,8 @@ FIRST_PASS_MISSES = {
     "J": ["C03-J", "C05-J", "C07-J", "C10-J", "C12-J", "C14-J", "C16-J", "C18-J", "C19-J"],
     "K": ["C05-K", "C07-K", "C08-K", "C10-K", "C17-K"],
     "L": ["C17-L"],
+    "M": ["C07-M", "C19-M"],
+    "N": ["C01-N", "C02-N", "C05-N", "C06-N", "C08-N", "C09-N", "C10-N", "C11-N", "C12-N", "C13-N", "C14-N", "C17-N", "C18-N", "C19-N", "C20-N"],
 }
 summary = ["| wave | changes | caught by the quick check of their own property | not caught by it |", "|---|---|---|---|"]
 for wave, (n, okn, miss) in per_wave.items():
